@@ -15,6 +15,13 @@ ZONES = ["MAIN", "ZONE2", "ZONE3", "ZONE4"]
 TIMEOUT_US = 1_500_000
 
 
+def timeout_us():
+    """the check's time-out as the code under test has it (regenerated)"""
+    from ..common import gen_params
+
+    return gen_params().get("p_check_timeout", TIMEOUT_US)
+
+
 def make_receiver(zones, swallow_first, missing):
     store = {"SYS": {"MODELNAME": "RX-V" + "".join(z[-1] for z in zones), "VERSION": "1.0"}}
     for z in zones:
@@ -82,7 +89,7 @@ def monitor(s, case, rx):
     if s.disconnects and not case.get("fault"):
         return "the disconnect callback was invoked by connection_check on a healthy link"
     t_reply = model_reply_time(s)
-    in_time = t_reply is not None and t_reply < s.t_start + TIMEOUT_US - 1000 and not (case.get("fault") and case["fault"]["kind"] in ("eof", "err") and case["fault"]["at_us"] <= t_reply)
+    in_time = t_reply is not None and t_reply < s.t_start + timeout_us() - 1000 and not (case.get("fault") and case["fault"]["kind"] in ("eof", "err") and case["fault"]["at_us"] <= t_reply)
     if s.exc is not None:
         if not isinstance(s.exc, ynca.YncaConnectionError):
             return f"connection_check raised {type(s.exc).__name__}: {s.exc} (expected YncaConnectionError)"
@@ -90,7 +97,7 @@ def monitor(s, case, rx):
             return f"connection_check raised although the model name reply arrived at {t_reply} us, within the time-out"
         return None
     res = s.result
-    if t_reply is None or t_reply >= s.t_start + TIMEOUT_US:
+    if t_reply is None or t_reply >= s.t_start + timeout_us():
         return f"connection_check returned {res!r} although no model name arrived within the time-out"
     want_zones = [z for z in ZONES if z in case["zones"]]
     if res.modelname != rx.store["SYS"]["MODELNAME"]:
